@@ -5,7 +5,7 @@
    (atoms of one element per mole, tiled over the phases) or [w] itself (mass).
    [weights o w a] is that functional expressed on the quantity the object acts on (a/w on a weight
    basis), [buffer o w mol] that quantity (mass flows on a weight basis).  [balanced a r]: a . S_r = 0. *)
-From V Require Import Common.NumFacts C05.Model C05.Proofs.
+From V Require Import Common.NumFacts C05.Model C05.Proofs C05.Proofs2.
 
 (* atoms_conserved / mass_conserved for streams, any object (reaction, parallel, series, system),
    either basis, phase-less or phase-tagged: exact when the clamp did not fire, and always within
@@ -291,3 +291,175 @@ Theorem C05_cab_normalised : forall mws s d n formula consts Aobs bobs sol s',
   normalised (as_rxn (hp s') d) /\ derived s' = derived s.
 Proof. exact cab_normalised_lemma. Qed.
 Print Assumptions C05_cab_normalised.
+
+(* ====================================================================================== *)
+(* Deepening round *)
+
+(* correct_atomic_balance, the linear solve being an oracle with the contract "what it returns satisfies the
+   equations it was given" (A x = b).  For EVERY such solver: the molar coefficients after the solve are
+   annihilated by every row of the formula array (rows the code drops from the system included) ... *)
+Theorem C05_cab_solution_balanced : forall solver n formula mws r consts v,
+  solver_contract solver -> NoDup (cab_consts n r consts) ->
+  cab_solve solver n formula mws r consts = Ok v ->
+  length v = length (cab_by_mol n mws r) /\ Forall (fun F => vdot F v == 0) formula.
+Proof. exact cab_solve_balanced. Qed.
+Print Assumptions C05_cab_solution_balanced.
+
+(* ... and the corrected phase-less reaction (coefficients written back, times MW on a weight basis, then _rescale)
+   is atomically balanced in the sense C05_stream_conserved needs, on either basis; it keeps reactant, conversion,
+   basis and is normalised (C05_cab_applied_normalised), so C05_consumed applies to it too *)
+Theorem C05_cab_balanced : forall solver n formula mws r consts r',
+  solver_contract solver -> NoDup (cab_consts n r consts) ->
+  phases r = [] -> length (st r) = n -> length mws = n -> Forall (fun x => ~ x == 0) mws ->
+  cab_apply solver n formula mws r consts = Ok r' ->
+  Forall (fun F => balanced (row_weights (wt r) mws F) r') formula.
+Proof. exact cab_apply_balanced_phaseless. Qed.
+Print Assumptions C05_cab_balanced.
+
+Theorem C05_cab_applied_normalised : forall solver n formula mws r consts r',
+  cab_apply solver n formula mws r consts = Ok r' ->
+  normalised r' /\ ridx r' = ridx r /\ X r' = X r /\ wt r' = wt r /\ phases r' = phases r /\
+  length (st r') = length (st r).
+Proof. exact cab_apply_normalised. Qed.
+Print Assumptions C05_cab_applied_normalised.
+
+(* non-vacuity: CH4 + O2 -> H2O + CO2 (unbalanced as written) with an exact solver answer *)
+Definition exFormula : list vec := [[1; 2; 0; 1; 0; 0; 2; 1]; [4; 4; 0; 0; 2; 2; 6; 0]; [0; 0; 2; 2; 1; 0; 1; 1]].
+Definition exUnb : rxn := mkrxn [-1; 0; -1; 1; 1; 0; 0; 0] 0 1 false [].
+Example C05_nonvacuous_cab :
+  let solver := fun (_ : list vec) (_ : vec) => Some [-2; 1; 2] in
+  solves (cab_A (cab_rows exFormula (cab_by_mol 8 exW exUnb)) (cab_unknown (cab_by_mol 8 exW exUnb) (cab_consts 8 exUnb None)))
+         (cab_b (cab_rows exFormula (cab_by_mol 8 exW exUnb)) (cab_by_mol 8 exW exUnb) (cab_consts 8 exUnb None)) [-2; 1; 2] /\
+  exists r', cab_apply solver 8 exFormula exW exUnb None = Ok r' /\ veqb (st r') [-1; 0; -2; 1; 2; 0; 0; 0] = true.
+Proof.
+  split.
+  - vm_compute. repeat constructor.
+  - eexists. split; [vm_compute; reflexivity|]. vm_compute. reflexivity.
+Qed.
+
+(* when exactly each basis raises InfeasibleRegion on a stream: the molar object when the negative MOLAR flows sum
+   below -eps, its per-mass version when the negative flows WEIGHTED BY THE MOLECULAR WEIGHTS do; the two sums are
+   within the factors min MW and max MW of each other (so with every MW >= 1 the weight basis raises whenever the
+   molar one does, and never unless the molar negatives exceed eps / max MW) *)
+Theorem C05_threshold_mol_vs_wt : forall w o o' mol,
+  obj_wt_of w o o' -> length w = length mol -> Forall (fun x => 0 < x) w ->
+  Forall (wf (length mol)) (obj_members o) ->
+  let v := fst (react_obj o mol) in
+  snd (react_obj o' (to_mass w mol)) = snd (react_obj o mol) /\
+  (fst (call_stream w o mol) = Some EInfeasible <-> snd (react_obj o mol) = None /\ neg_sum v < - eps) /\
+  (fst (call_stream w o' mol) = Some EInfeasible <-> snd (react_obj o mol) = None /\ wneg_sum w v < - eps) /\
+  (forall lo hi, Forall (fun x => lo <= x /\ x <= hi) w -> 0 <= lo ->
+     hi * neg_sum v <= wneg_sum w v /\ wneg_sum w v <= lo * neg_sum v).
+Proof. exact threshold_lemma. Qed.
+Print Assumptions C05_threshold_mol_vs_wt.
+
+Theorem C05_raises_iff : forall w o mol,
+  (fst (call_stream w o mol) = Some EInfeasible <->
+   snd (react_obj o (buffer o w mol)) = None /\ neg_sum (fst (react_obj o (buffer o w mol))) < - eps) /\
+  (fst (call_stream w o mol) = None <->
+   snd (react_obj o (buffer o w mol)) = None /\ - eps <= neg_sum (fst (react_obj o (buffer o w mol)))).
+Proof. intros. split; [apply stream_raises_iff | apply stream_returns_iff]. Qed.
+Print Assumptions C05_raises_iff.
+
+(* the clause "both bases give the same result on a stream", read as "both raise or both return", ... *)
+Definition C05_same_outcome_statement : Prop :=
+  forall w o o' mol, obj_wt_of w o o' -> length w = length mol -> Forall (fun x => 0 < x) w ->
+    Forall (wf (length mol)) (obj_members o) ->
+    fst (call_stream w o mol) = fst (call_stream w o' mol).
+
+(* ... fails inside the window: CH4 + 2 O2 -> CO2 + 2 H2O at X = 1 with O2 short by 2^-41 kmol/hr returns on the molar
+   basis (-4.5e-13 kmol/hr is clipped) and raises on the weight basis (-1.5e-11 kg/hr) *)
+Definition exR1 : rxn := mkrxn [-1; 0; -2; 1; 2; 0; 0; 0] 0 1 false [].
+Definition exR1w : rxn := mkrxn [-1; 0; -4; 11 # 4; 9 # 4; 0; 0; 0] 0 1 true [].
+Definition exShort : vec := [1; 0; 2 - (1 # 2199023255552); 0; 0; 0; 0; 0].
+Theorem C05_same_outcome_refuted : ~ C05_same_outcome_statement.
+Proof.
+  intros H.
+  specialize (H exW (Simple false (Single exR1)) (Simple true (Single exR1w)) exShort).
+  assert (E : fst (call_stream exW (Simple false (Single exR1)) exShort)
+              <> fst (call_stream exW (Simple true (Single exR1w)) exShort)) by (vm_compute; discriminate).
+  apply E. apply H.
+  - constructor. constructor. unfold wt_of. simpl. repeat split; try reflexivity.
+    + vm_compute. discriminate.
+    + intros i. do 8 (destruct i as [|i]; [vm_compute; reflexivity|]). unfold nthq; simpl. destruct i; reflexivity.
+  - reflexivity.
+  - unfold exW. repeat (apply Forall_cons; [reflexivity|]). apply Forall_nil.
+  - repeat constructor.
+Qed.
+Print Assumptions C05_same_outcome_refuted.
+
+(* streams of another package: the full-state model agrees with C05_other_package's when the call returns, ... *)
+Theorem C05_other_full_refines : forall w o nA fwd bwd mol,
+  fst (fst (call_other_full w o nA fwd bwd mol)) = fst (call_other w o nA fwd bwd mol) /\
+  (fst (call_other w o nA fwd bwd mol) = None ->
+   call_other_full w o nA fwd bwd mol = (None, snd (call_other w o nA fwd bwd mol), false)).
+Proof. exact other_full_refines. Qed.
+Print Assumptions C05_other_full_refines.
+
+(* ... and after an exception of the reaction itself the stream holds data on the REACTION's package (its indexer
+   refers to the reaction's chemicals): the remapped feed on a weight basis, the (partly) reacted buffer on a molar
+   basis; atoms and mass read the same on it as on the feed.  Nothing else is promised: the stream's own package
+   is not restored. *)
+Theorem C05_other_exception_state : forall w o nA fwd bwd mol e d lay aA aB,
+  NoDup (targets fwd) -> (forall i, In i (targets fwd) -> (i < nA)%nat) ->
+  length fwd = length mol -> length aB = length mol -> length aA = nA ->
+  (forall j i, nth j fwd (Some O) = Some i -> (j < length fwd)%nat -> nthq aA i == nthq aB j) ->
+  Forall (wf nA) (obj_members o) -> Forall (balanced aA) (obj_members o) ->
+  call_other_full w o nA fwd bwd mol = (Some e, d, lay) -> e <> EKey ->
+  lay = true /\ length d = nA /\ vdot aA d == vdot aB mol /\
+  exists a, remap nA fwd mol = Ok a /\ d = (if obasis o then a else fst (react_obj o a)).
+Proof. exact other_full_exception. Qed.
+Print Assumptions C05_other_exception_state.
+
+Example C05_nonvacuous_other_exception :
+  call_other_full [16; 32; 44] (Simple false (Single (mkrxn [-1; -2; 1] 0 1 false []))) 3
+    [Some 1%nat; Some 0%nat] [Some 1%nat; Some 0%nat; None] [1; 4]
+  = (Some EInfeasible, [0; -7; 4], true).
+Proof. vm_compute. reflexivity. Qed.
+
+(* force_reaction: when no flow would become negative it does exactly what __call__ does ... *)
+Theorem C05_force_feasible : forall o v, snd (react_obj o v) = None -> nonneg (fst (react_obj o v)) ->
+  force_process o v = (None, fst (react_obj o v)) /\ process o v = (None, fst (react_obj o v)).
+Proof. exact force_feasible. Qed.
+Print Assumptions C05_force_feasible.
+
+(* ... but "force_reaction conserves every functional the members annihilate" ... *)
+Definition C05_force_conserves_statement : Prop :=
+  forall o v v' a, Forall (wf (length v)) (obj_members o) -> Forall (balanced a) (obj_members o) ->
+    force_process o v = (None, v') ->
+    (forall i, nthq v' i < 0 -> nthq v' i == nthq (fst (react_obj o v)) i) ->   (* negatives it kept are the computed ones *)
+    forall amax, 0 <= amax -> bounded amax a -> - (amax * eps) <= vdot a v' - vdot a v <= amax * eps.
+
+(* ... is refuted by the code as it is: O2 + 2 H2 -> 2 H2O at X = 1 with H2 short by 2^-10 next to 2^60 kmol/hr of
+   inert CH4: the negative H2 flow is negligible against the total, and the mask meant for it deletes entry 0, the CH4 *)
+Definition exForceR : rxn := mkrxn [0; 0; -1; 0; 2; -2; 0; 0] 2 1 false [].
+Definition exForceFeed : vec := [1152921504606846976; 1; 1; 1; 1; 2 - (1 # 1024); 1; 1].
+Theorem C05_force_conserves_refuted : ~ C05_force_conserves_statement.
+Proof.
+  intros H.
+  pose (v' := snd (force_process (Simple false (Single exForceR)) exForceFeed)).
+  specialize (H (Simple false (Single exForceR)) exForceFeed v' exW).
+  assert (E : ~ (- (46 * eps) <= vdot exW v' - vdot exW exForceFeed)).
+  { intros Hc. vm_compute in Hc. apply Hc. reflexivity. }
+  apply E. apply (H).
+  - repeat constructor.
+  - repeat constructor; vm_compute; reflexivity.
+  - vm_compute. reflexivity.
+  - intros i. do 8 (destruct i as [|i]; [vm_compute; try congruence; intros; reflexivity|]).
+    unfold nthq; simpl. destruct i; vm_compute; congruence.
+  - vm_compute. congruence.
+  - unfold bounded, exW. repeat (apply Forall_cons; [split; vm_compute; congruence|]). apply Forall_nil.
+Qed.
+Print Assumptions C05_force_conserves_refuted.
+
+(* conversion(material): the returned change is react - feed entry by entry and carries no atoms and no mass *)
+Theorem C05_conversion_def : forall o m c, Forall (wf (length m)) (obj_members o) -> conv_obj o m = Ok c ->
+  length c = length m /\ forall i, nthq c i == nthq (fst (react_obj o m)) i - nthq m i.
+Proof. exact conv_obj_spec. Qed.
+Print Assumptions C05_conversion_def.
+
+Theorem C05_conversion_balanced : forall o m c a,
+  Forall (wf (length m)) (obj_members o) -> Forall (balanced a) (obj_members o) ->
+  conv_obj o m = Ok c -> vdot a c == 0.
+Proof. exact conversion_balanced. Qed.
+Print Assumptions C05_conversion_balanced.
